@@ -18,7 +18,10 @@ MarkMembers(s) == UNION {{[s EXCEPT ![i] = m] : m \in TakeN(MarkedOf(s[i]), 4)} 
                   \cup (IF Len(s) = 2 THEN {<<WithMk(s[1], <<"m1">>), WithMk(s[2], <<"m2">>)>>} ELSE {})
 CtorLines == UNION {UNION {{[k |-> "mark", api |-> api, xs |-> <<[keys |-> SubSeq(<<"a", "b">>, 1, Len(s))]>>, a |-> s, vs |-> SetToSeq(MarkMembers(s))]
                             : api \in {"SetVal", "ListVal", "TupleVal", "MapVal", "ObjectVal"}} : s \in MemberLists(t)} : t \in ElemT}
-Lines == IF Fam = "convert" THEN ConvLines ELSE CtorLines
+\* the mark API itself: receiver and source values, each possibly marked (top level or nested)
+MarkApiLines == UNION {UNION {{[k |-> "mark", api |-> api, xs |-> <<[none |-> TRUE]>>, a |-> s, vs |-> SetToSeq(MarkMembers(s) \cup {s})]
+                               : api \in (IF Len(s) = 1 THEN {"Unmark", "UnmarkDeep", "WithSameMarks"} ELSE {"WithSameMarks", "WithMarks"})} : s \in MemberLists(t)} : t \in ElemT}
+Lines == IF Fam = "convert" THEN ConvLines ELSE CtorLines \cup MarkApiLines
 ASSUME LET sq == SetToSeq(Lines) IN ndJsonSerialize(IOEnv.VOUT, sq) /\ PrintT(<<"GEN", Len(sq)>>)
 VARIABLE x
 Init == x = 0
